@@ -110,6 +110,14 @@ CHECKS["C06"] = (
     "DESIGN.md section 5 C06",
 )
 
+CHECKS["C08"] = (
+    "exploration",
+    "runtime monitor with a reference arity resolver: functions compiled from every arity signature report [arity-tag params rest] and count body entries; calls through direct/Var/apply/partial shapes are compared with the reference (matching arity, bindings, rest seq, or arity error before any body); lazy argument tails count realized cells; Python frame depth is sampled inside recur loops",
+    "Held on all 162 arity signatures x 19 call shapes with a stratified 1/6 sample of argument counts 0..8 in quick (all in thorough), 4 compiler option sets, finite and infinite lazy argument tails, and 5 recur programs with 10^4 (thorough 10^6) iterations. Exploration (thorough enumerates the stated finite space completely).",
+    "Trusted: the reference resolver ref_call; the class of arity errors is not prescribed; compile-time arity warnings are ignored; apply may realize one cell more than binding and the more-arguments test need.",
+    "DESIGN.md section 5 C08",
+)
+
 NOT_BUILT ="check not built yet in this session (design in DESIGN.md section 5); not claimed until its monitor exists and is quiet on the unchanged tree"
 
 
